@@ -504,6 +504,15 @@ pub fn f8(tier: Tier) -> Vec<SemCase> {
         ("switch (a) { case 1:", "break; case 2: r = 5; break; default: r = 6; }"),
         ("while (a) { if (b) break;", "a--; }"),
         ("while (a) { a--; if (b) continue;", "}"),
+        // a forward branch over a tail whose own branches get repaired (cascading repairs)
+        ("do { if (b) break;", "a--; } while (a);"),
+        ("do { r = 1; r = 1; r = 1; r = 1; r = 1; r = 1; r = 1; r = 1; r = 1; r = 1; if (b) break;", "a--; } while (a);"),
+        ("do { if (b) { b = 0; continue; }", "a--; } while (a);"),
+        ("for (Y = 0; Y != 2; Y++) { if (b) break;", "}"),
+        ("for (Y = 0; Y != 2; Y++) { if (b) continue;", "}"),
+        ("if (a) { if (b) {", "} r = 2; }"),
+        ("if (a) { r = 2; if (b) {", "} }"),
+        ("do { if (a) { if (b) break;", "} r = 1; r = 1; r = 1; a--; } while (a);"),
     ];
     let decl = "unsigned char a, b, c, r; short s; unsigned char arr[4]; short sarr[2];\n";
     let decl_signed = "signed char a, b, c, r; short s; unsigned char arr[4]; short sarr[2];\n";
